@@ -44,6 +44,9 @@ def items(tier):
             out.append({"name": "uniform-by-density|" + G.show(a), "ast": a, "law": "uniform", "bydensity": True, "tier": tier})
         if G.free_vars(a) and not has_kind(a, ("union", "cut", "inter")):
             out.append({"name": "grid-rows|" + G.show(a), "ast": a, "law": "gridrows", "tier": tier})
+    # ONE random-sampling call with two parameter rows for unions whose volume ratio depends on the parameter
+    for a in (L.U(L.C_GROW, L.C([3, 0], 0.5), disjoint=True), L.U(L.I_GROW, L.I_FAR, disjoint=True), L.U(L.SQ_GROW, L.FAR_C, disjoint=True)):
+        out.append({"name": "uniform-rows|" + G.show(a), "ast": a, "law": "uniformrows", "tier": tier})
     for a in L.booleans2(tier) + L.booleans1(tier):
         if not G.free_vars(a):
             out.append({"name": "uniform-exactlen|" + G.show(L.B(a)), "ast": L.B(a), "law": "uniform", "exactlen": True, "tier": tier})
@@ -280,6 +283,35 @@ def run_item(item):
                              n, th, d, m, D, bnd["tv_bgrid"], worst, emp[worst], shares[worst]))
                 elif (shares > 0).sum() >= 4:
                     res["outcomes"].append(st + "|n=%d" % n)
+        elif law == "uniformrows":
+            if len(thetas) < 2 or th is not thetas[0]:
+                continue
+            tha, thb = thetas[0], thetas[-1]
+            prm2 = Bd.params_points({v: [tha[v], thb[v]] for v in tha})
+            N2 = bnd["net"] // 2
+            S = sample(lambda: Bd.build_tp(a).sample_random_uniform(n=N2, params=prm2))
+            if S is None or len(S) != 2 * N2 or S.as_tensor.dim() != 2:
+                continue
+            allp = np.concatenate([Bd.to_vals(S)[v] for v in order], 1)
+            for ri, thr_ in enumerate((tha, thb)):
+                pts = allp[ri * N2:(ri + 1) * N2]
+                rb = G.ref_box(a, vals_of_theta(thr_, 1))[0]
+                ex = rb[:, 1] - rb[:, 0]
+                pb = np.stack([rb[:, 0] - 0.0137 * ex, rb[:, 1] + 0.0291 * ex], 1)
+                m = {1: 8, 2: 4}.get(D, 3)
+                shares = solid_shares(a, thr_, pb, m, sub=24 if D <= 2 else 14)
+                thr = max(bnd["tv_uniform"], 0.6 * math.sqrt(float((shares > 0).sum()) / len(pts)))
+                d, emp = tv(pts, pb, m, shares)
+                res["evals"] += len(pts)
+                tvs.append(round(d, 4))
+                res.setdefault("tvlist", []).append((round(d, 4), name + "|row%d" % ri, str(thr_)))
+                if d > thr:
+                    worst = int(np.argmax(np.abs(emp - shares)))
+                    viol("C11|nonuniform|rows|%s" % _law_sig(a), "sample_random_uniform(n=%d) called with the two parameter rows %s and %s: the block of row %d has total-variation "
+                         "distance %.3f (> %.3f) to the measure shares of its own domain (worst cell %d: %.4f sampled vs %.4f of the measure)" % (
+                             N2, tha, thb, ri, d, thr, worst, emp[worst], shares[worst]))
+                elif (shares > 0).sum() >= 2:
+                    res["outcomes"].append(st + "|row%d" % ri)
         elif law == "gridrows":
             # ONE call of domain.sample_grid with two parameter rows: the block of every row is an even grid of ITS domain
             if len(thetas) < 2 or th is not thetas[0]:
